@@ -4,6 +4,7 @@ import ast
 
 from .. import tables
 from ..callgraph import callgraph, reachable_from
+from ..canon import canon, cexpr
 from ..pm import dotted, src
 from ..q import FA, call_name, walk_no_nested
 from ..rules import api
@@ -161,8 +162,8 @@ def run(ctx):
         calls = ia.find_calls(callee)
         ctx.ob("R-ORDER", "C20.5", iinit, f"{callee}() runs on every path through the sampler constructor", len(calls) == 1 and ia.on_every_normal_path(calls[0][0]), "")
     cc = ctx.fn(tables.INS + ".check_configuration")
-    tests = [src(n.test) for n in walk_no_nested(cc.node) if isinstance(n, ast.If) and any(isinstance(x, ast.Raise) for x in n.body)]
-    ctx.ob("R-REG", "C20.3", cc, "min_samples > nlive and min_remove > nlive are rejected up front", any("min_samples > self.nlive" in t for t in tests) and any("min_remove > self.nlive" in t for t in tests), f"{tests}")
+    tests = [canon(n.test) for n in walk_no_nested(cc.node) if isinstance(n, ast.If) and any(isinstance(x, ast.Raise) for x in n.body)]
+    ctx.ob("R-REG", "C20.3", cc, "min_samples > nlive and min_remove > nlive are rejected up front", cexpr("self.min_samples > self.nlive") in tests and cexpr("self.min_remove > self.nlive") in tests, f"{tests}")
 
     # 7. threshold methods ---------------------------------------------------
     dl = ctx.fn(tables.INS + ".determine_log_likelihood_threshold")
